@@ -397,7 +397,7 @@ func ruleUnitMix(c *Ctx, r *R) {
 						if a == uUnknown || bu == uUnknown || a == uTop || bu == uTop {
 							continue
 						}
-						report("binop", ins, fmt.Sprintf("`%s` combines a value measured in %s with one measured in %s: they agree only for ASCII strings", x.Op, a, bu), a != bu)
+						report(fmt.Sprintf("binop(%s)", x.Op), ins, fmt.Sprintf("`%s` combines a value measured in %s with one measured in %s: they agree only for ASCII strings", x.Op, a, bu), a != bu)
 					}
 				case *ssa.Call:
 					callee := x.Call.StaticCallee()
